@@ -716,14 +716,14 @@ def run(ctx):
         "parallel runs: call log compared per design, Problem.failed as a multiset (order across workers is unspecified)",
         "SciPy/NLopt are black boxes calling evaluator.evaluate_scalar; the harness spies on that callback",
     ]
-    nb = 1200 if ctx.quick else 15000
+    nb = 1200 if ctx.quick else 40000
     pool = problem_pool(rng, 60 if ctx.quick else 500)
     ctx.count("problem_descriptions", len(pool))
     if not run_stream(ctx, "c05.run", [gen_batch_case(rng, ctx.quick, pool) for _ in range(nb)], "batch", is_nontrivial):
         return
     spool = [gen_scalar_problem(rng) for _ in range(30 if ctx.quick else 300)]
-    for kind, n in (("scalar", 60 if ctx.quick else 800), ("sweep", 60 if ctx.quick else 800),
-                    ("scipy", 12 if ctx.quick else 120), ("nlopt", 12 if ctx.quick else 120)):
+    for kind, n in (("scalar", 60 if ctx.quick else 2000), ("sweep", 60 if ctx.quick else 2000),
+                    ("scipy", 12 if ctx.quick else 200), ("nlopt", 12 if ctx.quick else 200)):
         if not run_stream(ctx, "c05.run", [gen_scalar_case(rng, kind, spool) for _ in range(n)], kind):
             return
 
